@@ -41,7 +41,7 @@ def run(tier, seed):
     model_ok, model_err = c.lake_build(["zvdrv"])
     root = g.scratch(f"C12-{tier}-{seed}")
     cases = st.repo_corpus_cases(root, large=(tier == "thorough"))
-    for profile, nq, nt in (("genwsdl", 40, 600), ("gencyc", 25, 400), ("genwsdlcollide", 10, 100)):
+    for profile, nq, nt in (("genwsdl", 30, 500), ("genwsdlmulti", 20, 300), ("gencyc", 25, 400), ("genwsdlcollide", 10, 100)):
         n = nq if tier == "quick" else nt
         if not proved:
             n = max(n, nt // 2)
@@ -74,7 +74,7 @@ def run(tier, seed):
         "evaluations": sum(len(k) for k in probes),
         "distinct_nontrivial": sum(1 for cs in cases if cs["impl"].startswith("ok")),
         "rule": "per input: 3 fresh processes x (5 registration orders + 1 other thread + 3 repeated calls on one FilesToRead), all 27 outputs compared byte for byte (by hash); "
-                "non-trivial = an input the generator accepts; inputs: repository corpus, generated WSDLs with 1-4 operations and 1-4 parts per message, cyclic import graphs",
+                "non-trivial = an input the generator accepts; inputs: repository corpus, generated WSDLs with 1-4 operations and 1-4 parts per message (also messages with parts bound neither as body nor as header), cyclic import graphs",
         "samples": [{"input": cs["meta"].get("source") or cs["meta"].get("features"), "probes": p[:3]} for cs, p in list(zip(cases, probes))[:2]],
         "probe_kinds": dict(tags),
         "inputs": len(cases),
